@@ -336,6 +336,9 @@ def option_some_only_if_nonempty(fn):
                 return False
         elif v is not None and kind(v) == "Path" and v.get("path") == "core::option::Option::None":
             continue
+        elif v is not None and kind(v) == "MethodCall" and v["m"] in ("then", "then_some") \
+                and "nonempty" in cmp_facts(v["recv"], True):
+            some += 1    # `(self.start < self.end).then(|| ..)`: Some exactly when the window is non-empty
         else:
             return False
     return some > 0
